@@ -108,7 +108,8 @@ def fnvModel : List String → String
   | _ => "bad-case"
 
 /-
-  c05.retry  kind robin keyhex hosts maxConns maxFails tryDuration interval failTimeout bodyLen
+  c05.retry  kind robin keyhex hosts maxConns maxFails tryDuration interval failTimeout bodyLen framing
+     framing = cl (Content-Length = bodyLen; 0 = http.NoBody) | chunked (ContentLength -1, non-nil Body) | nil (Body nil)
      hosts = comma list of  u/c/script  (u: 1 unhealthy; base conns; script letters K ok, F fail before
              reading the body, R fail after reading it, C client cancelled, T body too large)
      durations in milliseconds = ticks
@@ -132,12 +133,14 @@ def parseRetryHost (s : String) : Option HostCfg :=
 
 open Casket.Retry in
 def parseRetry : List String → Option (Cfg × Nat)
-  | [k, robin, key, hosts, mc, mf, d, i, f, blen] => do
+  | [k, robin, key, hosts, mc, mf, d, i, f, blen, framing] => do
     let hs ← (hosts.splitOn ",").mapM parseRetryHost
     let c : Cfg := { kind := ← parseKind k, hash := fnv32a (← Driver.unhex key), rands := fun _ => [],
                      tryDuration := ← d.toNat?, interval := ← i.toNat?, failTimeout := ← f.toNat?,
                      maxFails := ← mf.toNat?, maxConns := ← mc.toNat?, hosts := hs,
-                     hasBody := (← blen.toNat?) != 0 }
+                     -- the outgoing request has a Body: unknown length (chunked upload, even when it turns out
+                     -- empty) or a declared Content-Length > 0; Content-Length 0 means Body = nil
+                     hasBody := framing == "chunked" || (framing == "cl" && (← blen.toNat?) != 0) }
     pure (c, ← robin.toNat?)
   | _ => none
 
